@@ -36,7 +36,7 @@ type Backend struct {
 
 func NewSqliteBackend(path string) *Backend {
 	m := metrics.New(prometheus.NewRegistry())
-	st, err := sqlite.New(nil, m, &sqlite.Config{Size: 10, BatchSize: 10, Path: path, TxTimeout: 10 * time.Second})
+	st, err := sqlite.New(nil, m, &sqlite.Config{Size: 10, BatchSize: 10, Path: path, TxTimeout: time.Hour})
 	if err != nil {
 		panic(err)
 	}
@@ -101,7 +101,7 @@ func (b *Backend) Exec(batch [][]*t_aio.Command) ([][]*t_aio.Result, []error) {
 func NewPostgresBackend() *Backend {
 	m := metrics.New(prometheus.NewRegistry())
 	db := openShim()
-	st := postgres.VerifNew(db, m, &postgres.Config{Size: 10, BatchSize: 10, Workers: 1, TxTimeout: 10 * time.Second})
+	st := postgres.VerifNew(db, m, &postgres.Config{Size: 10, BatchSize: 10, Workers: 1, TxTimeout: time.Hour})
 	if err := st.VerifCreateTables(); err != nil {
 		panic(fmt.Sprintf("pgshim: schema: %v", err))
 	}
